@@ -19,6 +19,7 @@ import (
 	"github.com/aergoio/aergo/v2/config"
 	"github.com/aergoio/aergo/v2/consensus"
 	"github.com/aergoio/aergo/v2/consensus/impl/dpos"
+	"github.com/aergoio/aergo/v2/consensus/impl/dpos/bp"
 	"github.com/aergoio/aergo/v2/contract"
 	"github.com/aergoio/aergo/v2/contract/system"
 	"github.com/aergoio/aergo/v2/fee"
@@ -120,6 +121,7 @@ func NewNet(o NetOpts) *Net {
 	consensus.InitBlockInterval(int64(o.BlockIntv))
 	fee.VerifSetZeroFee(false)
 	system.VerifResetProcess()
+	bp.VerifElectionPeriod = 0
 	simclock.Set(n.Start)
 	simclock.Skew = 0
 	return n
